@@ -190,6 +190,7 @@ def unit_mh_sample():
     stt = loopcut.REGISTRY[lid]
     stt.peel_last = True
     stt.mutated.pop("samples", None)
+    last_state = {}
 
     def inv(env, entry):
         if env["__phase"] != "end":
@@ -197,6 +198,7 @@ def unit_mh_sample():
         head, loop = env["__head"], env["__loop"]
         i = loop._target
         x, xn = env["x"], env["xnext"]
+        last_state["x"] = x
         out = [("new_state_is_previous_state_or_the_proposal", (x is head["x"]) or (x is xn)),
                ("log_p_of_the_state_is_tracked", (env["logpx"] is head["logpx"]) if x is head["x"] else (env["logpx"] is env["logpnext"]))]
         if "samples" in env and isinstance(env.get("samples"), RowLog):
@@ -222,6 +224,9 @@ def unit_mh_sample():
             out = rw.fn(logp, x0, (pp,), n, fresh_real("step_size"), collect)
         if collect:
             c.check("buffer_has_n_rows", out.shape[0] == n and out.shape[1:] == x0.shape)
+        else:
+            c.check("burn_in_returns_the_state_of_the_chain_after_the_last_step(not_a_rejected_proposal)",
+                    isinstance(out, tuple) and out[0] is last_state.get("x"))
         c.prove("canary", z3.BoolVal(False), kind="canary")
     ur = kit.run_unit("mh_sample", run)
     ur.rewrites.append({"function": "mcmc._mh_sample", "diff_lines": rw.diff.count("\n")})
@@ -281,6 +286,51 @@ def unit_integrate():
     return ur
 
 
+def unit_integrate_alias():
+    """an integrand that returns a tensor it does not own (a stored constant, its parameter, the sample itself): the weighted
+    sum must not modify it"""
+    mc, mq = _mods()
+
+    def run():
+        c = ctx()
+        d = fresh_int("d")
+        c.assume(d.e >= 1)
+        for what in ("stored constant", "parameter", "sample"):
+            cst = st.vec("const", (d,), (0,))
+            p = st.vec("p", (d,), (0,), requires_grad=True)
+            rows = [st.vec("x%d" % k, (d,), (0,)) for k in range(3)]
+
+            class Samples(st.Tensor):
+                def __getitem__(self, i):
+                    return rows[i]
+
+                def __len__(self):
+                    return 3
+            xs = Samples("opq", ("samples",), (3, d), st.float64)
+            wl = [st.scalar("w%d" % k) for k in range(3)]
+
+            class W(st.Tensor):
+                def __getitem__(self, i):
+                    return wl[i]
+            ws = W("opq", ("weights",), (3,), st.float64)
+            f = {"stored constant": (lambda x, p_: cst), "parameter": (lambda x, p_: p_), "sample": (lambda x, p_: x)}[what]
+            tag = "_integrate[integrand returns its %s]" % what
+            with st.no_grad():
+                ok, res = kit.call_or_fail(c, tag + ":does_not_raise", lambda: mq._integrate(f, xs, ws, (p,)))
+            if not ok:
+                continue
+            watched = [cst, p] + rows
+            c.check(tag + ":tensors_the_integrand_returns_are_not_modified_in_place", all(t._version == 0 for t in watched),
+                    detail=str([(t.name, t._version) for t in watched if t._version]))
+            if what == "sample":
+                want = rows[0].v.scale(wl[0].v) + rows[1].v.scale(wl[1].v) + rows[2].v.scale(wl[2].v)
+            else:
+                base = cst if what == "stored constant" else p
+                want = base.v.scale(wl[0].v + wl[1].v + wl[2].v)
+            kit.prove_vec(c, tag + ":result_is_the_weighted_sum", res, want)
+    return kit.run_unit("integrate_alias", run)
+
+
 def unit_dummy1d():
     mc, mq = _mods()
 
@@ -329,12 +379,19 @@ def unit_backward(fpat, ppat, alias=False):
                 if alias and pre == "fp" and out and i == len(pat) - 1 and k == "T":
                     out.append(out[0])            # one tensor passed in two parameter positions of f
                     continue
+                if k == "I":
+                    out.append(st.vec("%s%d" % (pre, i), (3,), (0,), requires_grad=True))     # returned by f as it is
+                    continue
                 out.append(st.vec("%s%d" % (pre, i), (2,), (0,), requires_grad=True) if k in "TU" else 2.5)
             return out
         fparams, pparams = mkparams(fpat, "fp"), mkparams(ppat, "pp")
         flog, plog = [], []
 
         def ffcn(x, *ps):
+            if "I" in fpat:
+                # the integrand returns one of its parameters unchanged (a leaf that requires grad and has no history)
+                flog.append((x, "identity", st.is_grad_enabled(), ps))
+                return ps[fpat.index("I")]
             used = [p for p, k in zip(ps, fpat) if k == "T"]
             out, pt = absfun("f", [x] + used, 3)
             flog.append((x, pt, st.is_grad_enabled(), ps))
@@ -392,7 +449,7 @@ def unit_backward(fpat, ppat, alias=False):
         c.check("outer_expectation_gets_backward_options", call["bck_options"] == fctx.bck_config and call["opts"] == fctx.bck_config)
         c.check("outer_expectation_gets_the_saved_log_p_parameters_themselves", len(call["pparams"]) == len(pparams) and
                 all(a is b for a, b in zip(call["pparams"], pparams)) and call["logp"] is pl)
-        ftp = [p for p, k in zip(fparams, fpat) if k in "TU"]
+        ftp = [p for p, k in zip(fparams, fpat) if k in "TUI"]
         ptp = [p for p, k in zip(pparams, ppat) if k in "TU"]
         fp_in = call["fparams"]
         c.check("augmented_function_parameters_are_(g,E,tensor_params)", len(fp_in) == 2 + len(ftp) + len(ptp) and fp_in[0] is g and fp_in[1] is epf)
@@ -420,6 +477,10 @@ def unit_backward(fpat, ppat, alias=False):
             if k == "X":
                 c.check("f_slot[%d:X]_is_None" % i, gi is None)
                 continue
+            if k == "I":
+                kit.prove_vec(c, "f_slot[%d:I]_parameter_returned_unchanged_gets_the_cotangent_per_sample" % i, gi, g.v.scale(alg.Sc(w)))
+                j += 1
+                continue
             if k == "U":
                 zero = gi is None or (isinstance(gi, st.Tensor) and gi.kind in ("sc", "vec") and (gi.v.is_zero()))
                 c.check("f_slot[%d:U]_unused_tensor_gets_no_or_zero_gradient" % i, zero)
@@ -427,7 +488,10 @@ def unit_backward(fpat, ppat, alias=False):
             argpos = 1 + len([1 for kk in fpat[:i] if kk == "T"])
             kit.prove_vec(c, "f_slot[%d:T]_is_the_sample_mean_of_J^T_g" % i, gi, g.v.apply("J%d@%s^H" % (argpos, fpt[0])).scale(alg.Sc(w)))
         # log p parameters: score-function (covariance) estimator
-        fx = alg.Vec({a_: c_ for a_, c_ in [(list(_fatom(fpt[0], flog).t.keys())[0], alg.ONE)]}) if fpt else None
+        if "I" in fpat:
+            fx = fparams[fpat.index("I")].v          # the value of the integrand is the parameter itself
+        else:
+            fx = alg.Vec({a_: c_ for a_, c_ in [(list(_fatom(fpt[0], flog).t.keys())[0], alg.ONE)]}) if fpt else None
         for i, k in enumerate(ppat):
             gi = grads[len(fpat) + i]
             if k == "X":
@@ -507,10 +571,12 @@ def unit_inner_entry():
 
 
 def units(tier):
-    us = [("inner_entry", unit_inner_entry), ("mhcustom_sample[collect=True]", lambda: unit_mhcustom_sample(True)),
+    us = [("inner_entry", unit_inner_entry), ("integrate_alias", unit_integrate_alias), ("mhcustom_sample[collect=True]", lambda: unit_mhcustom_sample(True)),
           ("mhcustom_sample[collect=False]", lambda: unit_mhcustom_sample(False)),
           ("sampler_tops", unit_sampler_tops), ("mh_sample", unit_mh_sample), ("integrate", unit_integrate), ("dummy1d", unit_dummy1d)]
     for fp, pp in (("T", "T"), ("TX", "T"), ("T", ""), ("", "T"), ("TU", "T"), ("T", "UT"), ("XT", "TX"), ("U", "T"), ("T", "U")):
         us.append(("backward[f:%s,p:%s]" % (fp or "-", pp or "-"), (lambda fp=fp, pp=pp: unit_backward(fp, pp))))
     us.append(("backward[f:TT,p:-,same_tensor_twice]", lambda: unit_backward("TT", "", True)))
+    us.append(("backward[f:I,p:T]", lambda: unit_backward("I", "T")))
+    us.append(("backward[f:XI,p:-]", lambda: unit_backward("XI", "")))
     return us
